@@ -416,10 +416,13 @@ EFFECT_LABELS = [('&&', 2), ('||', 2), ('+', 2), ('<', 2), ('==', 2), ('ff', 2),
 ORDER_LABELS = ([(op, 2) for op in OPS14] + [('if2', 2), ('hh2', 2), ('ff2', 2), ('arrayNew', 2)] +
                 [('!', 1), ('neg', 1), ('group', 1), ('if1', 1), ('hh1', 1), ('ff1', 1)] +
                 [('if3', 3), ('hh3', 3), ('ff3', 3)])
-LABEL_SETS = {'effects': EFFECT_LABELS, 'order': ORDER_LABELS}
+# The 'callee' family: calls of an unbound name (missingN) and of a name bound to null (nullfn2) next to a host call, a lazy
+# and a strict operator. Leaf 'rb' is the call rebind(), which binds hh to a different function.
+CALLEE_LABELS = [('missing2', 2), ('nullfn2', 2), ('hh2', 2), ('&&', 2), ('+', 2), ('missing1', 1), ('group', 1), ('missing3', 3)]
+LABEL_SETS = {'effects': EFFECT_LABELS, 'order': ORDER_LABELS, 'callee': CALLEE_LABELS}
 # Leaf kinds: None = effect call tt(i); 'gc' = read of the global variable gc, which every tt call increments (so a read
 # that happens too early or too late shows in the value).
-LEAF_KINDS = {'effects': [None], 'order': [None, 'gc']}
+LEAF_KINDS = {'effects': [None], 'order': [None, 'gc'], 'callee': [None, 'gc', 'rb']}
 
 _SHAPES = {}
 
@@ -464,6 +467,8 @@ def effect_model(shape):
     def build(node):
         if node == 'gc':
             return {'variable': 'gc'}
+        if node == 'rb':
+            return {'function': {'name': 'rebind', 'args': []}}
         if node is None:
             i = counter[0]
             counter[0] += 1
@@ -489,6 +494,8 @@ def effect_text(shape):
     def show(node):
         if node == 'gc':
             return 'gc'
+        if node == 'rb':
+            return 'rebind()'
         if node is None:
             i = counter[0]
             counter[0] += 1
